@@ -22,7 +22,7 @@ mkdir -p $BASE/target $BASE/target-bins
   git -C /repo worktree add -q --detach $WT HEAD
 ) 9>/tmp/seed-run/.gitlock
 if [ "$PATCH" != "none" ]; then git -C $WT apply "$PATCH"; fi
-rsync -a --delete --exclude 'harness/target' --exclude 'harness/target-bins' --exclude '.git' --exclude 'replays' /verif/ $V/
+rsync -a --delete --exclude 'harness/target' --exclude 'harness/target-bins' --exclude '.git' --exclude 'replays' --exclude '.work' --exclude '.locks' /verif/ $V/ || [ $? -eq 24 ]   # 24 = files vanished while copying (other checks running)
 mkdir -p $V/harness/target $V/harness/target-bins
 # warm the private target dirs once from the shared ones (saves a cold build)
 [ -d $BASE/target/debug ] || cp -a /verif/harness/target/. $BASE/target/ 2>/dev/null || true
